@@ -2,6 +2,13 @@ HOOK_COMMITS = ["d197d80"]
 NOTES = "All checks are generated-input search (proptest choice sequences, exhaustive small-domain enumeration) against explicit oracles; see DESIGN.md. Exit 2 = inconclusive (build failure / watchdog), never a violation."
 NOT_CLAIMED = {}
 CLAIMED = {
+ "C19": {
+  "technique": "model-based testing: exhaustive + random operation histories executed for real on fresh threads in child processes against an abstract model; lock-step two-thread interleavings",
+  "text": "Exploration: every well-bracketed history up to length 5 (quick) / 7 (thorough) over {enable, disable, enter catch_panic, return, panic(unique message), set hook again, set fallback Continue, get backtrace} plus random histories up to length 30, each run on a fresh thread in a child process whose sentinel hook was installed before the catcher's; after every step the nesting level (verif hook), every catch_panic result (Ok(v) / Err(text containing the message)), what the previously installed hook received, and the recorded backtrace equal the model's; a final probe panic outside any frame must reach the previous hook; two histories interleaved step by step (scheduler thread) must each observe exactly what they observe alone; dedicated children check fallback mode Abort (SIGABRT).",
+  "note": "Only string payloads, no resume_unwind; interleavings are at step granularity (finer races such as the non-atomic check-then-set in panic_catcher_set_hook are not reached).",
+  "ref": "DESIGN.md section 3, C19",
+ },
+
  "C18": {
   "technique": "stress exploration: generated filter sets executed concurrently (barrier-released threads, shared and per-thread filters/contexts) against a sequential baseline and the reference evaluator; fresh child processes racing first use of lazily initialised global state",
   "text": "Exploration: per case one generated scheme with 19 template filters (regex, SIMD contains, in-sets, lists, wildcard, map-each, plain and mapped calls, xor chains) plus generated filters and 10-16 contexts; after a sequential gate (engine = reference evaluator, repeat and recompile agree) T = 2, 4, 16, 64 barrier-released threads execute every (filter, context) pair repeatedly on shared Arc<Filter> / shared contexts as well as per-thread recompilations and cloned contexts, in walk and same-filter burst patterns; every result must equal the baseline; in-flight counters measure real overlap; fresh child processes (AVX2 on and off) race the first contains compile and first regex execution on 16 threads and must reproduce the sequential digest.",
